@@ -96,6 +96,23 @@ func c09Run(c *caseCtx) (res caseResult) {
 			return
 		}
 	}
+	// subscriptions for PIDs that have no actor: never spawned, and subscribed only after the actor stopped
+	nGhost := r.Intn(3)
+	for i := 0; i < nGhost; i++ {
+		if i%2 == 0 {
+			e.Subscribe(actor.NewPID("local", fmt.Sprintf("ghostsub/%d", i)))
+		} else {
+			p := e.SpawnFunc(func(*actor.Context) {}, "latesub", actor.WithID(fmt.Sprint(i)))
+			select {
+			case <-e.Poison(p).Done():
+			case <-time.After(wd):
+				res.inconclusive("late subscriber did not stop")
+				return
+			}
+			e.Subscribe(p)
+		}
+	}
+	nDead += nGhost
 	// targets
 	stopped := e.SpawnFunc(func(*actor.Context) {}, "tgt", actor.WithID("stopped"))
 	select {
@@ -191,12 +208,47 @@ func c09Run(c *caseCtx) (res caseResult) {
 			}
 		}()
 	}
+	// registry writers (spawns, stops, request/response registrations) churn while the sends are under way
+	churn := r.Intn(2) == 0
+	stopChurn := make(chan struct{})
+	var cwg sync.WaitGroup
+	if churn {
+		for k := 0; k < 2; k++ {
+			k := k
+			cwg.Add(1)
+			go func() {
+				defer cwg.Done()
+				for i := 0; ; i++ {
+					select {
+					case <-stopChurn:
+						return
+					default:
+					}
+					p := e.SpawnFunc(func(*actor.Context) {}, "churn", actor.WithID(fmt.Sprintf("%d-%d", k, i)))
+					e.Stop(p)
+					if i > 20000 {
+						return
+					}
+				}
+			}()
+		}
+	}
 	go func() { wg.Wait(); close(done) }()
-	res.Desc = fmt.Sprintf("sends=%d goroutines=%d monitors=%d deadSubscribers=%d classes=%v", n, nG, nMon, nDead, classes)
+	res.Desc = fmt.Sprintf("churn=%v sends=%d goroutines=%d monitors=%d deadSubscribers=%d classes=%v", churn, n, nG, nMon, nDead, classes)
 	select {
 	case <-done:
+		close(stopChurn)
 	case <-time.After(wd):
-		res.violate("a Send call did not return (%s)", res.Desc)
+		close(stopChurn)
+		res.violate("a Send call did not return within the watchdog: sending must never block the caller (%s)", res.Desc)
+		return
+	}
+	cdone := make(chan struct{})
+	go func() { cwg.Wait(); close(cdone) }()
+	select {
+	case <-cdone:
+	case <-time.After(wd):
+		res.violate("Spawn/Stop calls running next to the dead-letter sends did not return (%s)", res.Desc)
 		return
 	}
 	// settle: marker rounds until the sentinel's event count is stable
